@@ -319,7 +319,7 @@ SUBS = [
     Sub(name='shapes', kind='hyp', run=run, strategy=shape_cases,
         rule='33 space groups covering all crystal systems and centrings (quick) / all 230 by number (thorough); compatible lattice, optionally rotated; 1-2 sites incl. near-face positions; points planted at 0, 0.3, 0.9, 0.999, 1.001, 1.2 x radius from symmetry images + uniform points; positions given directly, as a trajectory, or as a 1-3^3 supercell trajectory; one case in four moves the sites first (shift_sites, Cartesian or fractional vectors, sites may leave [0,1)), one in four re-analyses after optimize_sites (site + centroid of its cloud); centroid / x / y / z of each shape',
         n={'quick': 100, 'thorough': 2500}, shards={'quick': 12, 'thorough': 16}),
-    Sub(name='long-trajectories', kind='hyp', run=run, strategy=long_shape_cases,
+    Sub(name='long-trajectories', kind='hyp', shrink=False, run=run, strategy=long_shape_cases,
         rule='the trajectory / supercell-trajectory forms of the shapes systems with the generated positions visited cyclically over 2499 - 5001 (10 001) frames (one atom per frame): same clauses on runs longer than any internal block size',
         n={'quick': 2, 'thorough': 12}, shards={'quick': 4, 'thorough': 16}),
     Sub(name='from-structure', kind='hyp', run=run_from_structure, strategy=structure_cases,
